@@ -12,6 +12,7 @@ import (
 	"golang.org/x/tools/go/packages"
 
 	"verif/checker/internal/flow"
+	"verif/checker/internal/load"
 )
 
 // ---------------------------------------------------------------------------
@@ -821,6 +822,17 @@ func (c *Ctx) r0811(pk *packages.Package) {
 			continue
 		}
 		S := info.Defs[fd.Type.Params.List[0].Names[0]]
+		total += c.dimensionCheck(rule, pk, fd, S, "minify."+name, nil)
+	}
+	c.R.Floor(rule, "comparisons between sums of positions and counts", total, 20)
+}
+
+// dimensionCheck judges the comparisons of fd between sums of positions of the slice S and counts (see R08.11);
+// it returns the number of comparisons judged. report, when not nil, receives the mismatches instead of the report.
+func (c *Ctx) dimensionCheck(rule string, pk *packages.Package, fd *ast.FuncDecl, S types.Object, name string, report func(pos, text string)) int {
+	info := pk.TypesInfo
+	total := 0
+	{
 		isS := func(e ast.Expr) bool {
 			id, ok := ast.Unparen(e).(*ast.Ident)
 			return ok && info.Uses[id] == S
@@ -978,10 +990,55 @@ func (c *Ctx) r0811(pk *packages.Package) {
 			dl, dr := degree(lm), degree(rm)
 			key := nospace(str(be))
 			seen[key]++
-			c.R.Check(dl == dr, rule, fmt.Sprintf("minify.%s/%s#%d relates like with like", name, key, seen[key]), c.pos(be), fmt.Sprintf("position degree %d on both sides", dl), fmt.Sprintf("the left side has position degree %d and the right side %d: a count is compared with an index into num, which is only right while the number starts at index 0 — after a sign or stripped leading zeros the test decides differently (`-99` at precision 1 is rounded to `100` and written past the end of the slice)", dl, dr))
+			if report != nil {
+				if dl != dr {
+					report(c.pos(be), fmt.Sprintf("%s: %s (degree %d vs %d)", name, key, dl, dr))
+				}
+				return true
+			}
+			c.R.Check(dl == dr, rule, fmt.Sprintf("%s/%s#%d relates like with like", name, key, seen[key]), c.pos(be), fmt.Sprintf("position degree %d on both sides", dl), fmt.Sprintf("the left side has position degree %d and the right side %d: a count is compared with an index into num, which is only right while the number starts at index 0 — after a sign or stripped leading zeros the test decides differently (`-99` at precision 1 is rounded to `100` and written past the end of the slice)", dl, dr))
 			return true
 		})
 		_ = n
 	}
-	c.R.Floor(rule, "comparisons between sums of positions and counts", total, 20)
+	return total
+}
+
+// DimensionSurvey (dev): runs the position/count check on every function and every byte-slice variable of the
+// library packages and prints the mismatches — used to decide where the check can be armed.
+func (c *Ctx) DimensionSurvey() {
+	for _, rel := range libPkgs {
+		pk := c.P.Pkg(rel)
+		if pk == nil {
+			continue
+		}
+		info := pk.TypesInfo
+		for _, fd := range load.FuncDecls(pk) {
+			if fd.Body == nil {
+				continue
+			}
+			seen := map[types.Object]bool{}
+			ast.Inspect(fd, func(x ast.Node) bool {
+				id, ok := x.(*ast.Ident)
+				if !ok {
+					return true
+				}
+				o := info.Defs[id]
+				if o == nil || seen[o] {
+					return true
+				}
+				if sl, ok := o.Type().Underlying().(*types.Slice); ok {
+					_ = sl
+					seen[o] = true
+					n := c.dimensionCheck("survey", pk, fd, o, pk.Name+"."+load.FuncName(fd)+"["+id.Name+"]", func(pos, text string) {
+						fmt.Printf("MISMATCH %s %s\n", pos, text)
+					})
+					if n > 0 {
+						fmt.Printf("judged %d in %s.%s[%s]\n", n, pk.Name, load.FuncName(fd), id.Name)
+					}
+				}
+				return true
+			})
+		}
+	}
 }
